@@ -53,7 +53,11 @@ for m in missing:
     path = "/".join(parts[:3]) + ".py"
     node = "::".join([path] + parts[3:] + [name])
     ok = False
-    for _ in range(2):
+    for _ in range(3):
+        # a fresh example database each time: the failing example of the
+        # previous attempt must not be replayed
+        shutil.rmtree(hyp, True)
+        os.makedirs(hyp, exist_ok=True)
         q = subprocess.run(["/venv/bin/python", "-B", "-m", "pytest", "-q",
                             "-p", "no:cacheprovider", "--timeout=900", node],
                            cwd=repo, env=env, capture_output=True, text=True)
